@@ -1164,6 +1164,21 @@ def _in_diamond(symbol_table: Any, cname: str) -> bool:
     return any(_in_diamond(symbol_table, str(p.name)) for p in cls.inheritances)
 
 
+def _diamond_in_document(symbol_table: Any, cname: str, xml_text: str) -> bool:
+    """The document holds an instance of a class with diamond inheritance (the root itself, or a nested element named after
+    such a class)."""
+    from aas_core_codegen import naming
+
+    if _in_diamond(symbol_table, cname):
+        return True
+    for c in symbol_table.classes:
+        if _in_diamond(symbol_table, str(c.name)):
+            tag = naming.xml_class_name(c.name)
+            if f"<{tag}>" in xml_text or f"<{tag} " in xml_text or f"<{tag}/>" in xml_text:
+                return True
+    return False
+
+
 def _reason_class(reason: str) -> str:
     r = reason.lower()
     for key, name in (("pattern", "pattern"), ("length", "length"), ("unexpected child", "unexpected-child"), ("not complete", "incomplete-content"),
@@ -1360,7 +1375,7 @@ def judge_model(ctx: Ctx, b: Built, stream: str, mutants: bool) -> None:
                 if errs:
                     ctx.fail({"model": b.source, "class": cname, "document": xml_text},
                              f"the XSD {ver} schema rejects a document the SDK wrote for an instance satisfying all invariants: {errs[0]}",
-                             "C13:valid-document-rejected:" + _reason_class(errs[0]) + (":diamond" if _in_diamond(b.symbol_table, cname) else ""))
+                             "C13:valid-document-rejected:" + _reason_class(errs[0]) + (":diamond" if _diamond_in_document(b.symbol_table, cname, xml_text) else ""))
                     break
             if mutants:
                 from harness.props import c14
